@@ -66,12 +66,15 @@ class Gen:
             return ["```{note} " + m + " first", "", "sub" + m + " second para", "```"], [(m, 0, "paragraph"), ("sub" + m, 2, "paragraph"), (m, 0, "c:directive")]
         if kind == "epigraph":  # directive output built by MyST's own block-quote splitter: quote paragraph + attribution
             return ["```{epigraph}", m + " quoted", "", "-- sub" + m + " attributed", "```"], [(m, 1, "paragraph"), ("sub" + m, 3, "attribution"), (m, 1, "c:block_quote")]
+        if kind == "epigraph-blank":  # the same with a blank line between the fence and the body
+            return (["```{epigraph}", "", m + " quoted", "", "-- sub" + m + " attributed", "```"],
+                    [(m, 2, "paragraph"), ("sub" + m, 4, "attribution"), (m, 2, "c:block_quote")])
         if kind == "quotepara":
             return ["> " + m + " quoted"], [(m, 0, "paragraph"), (m, 0, "c:block_quote")]
         raise ValueError(kind)
 
 
-LEAVES_Q = ["para", "para2", "head", "code", "tgt", "list", "tightlist", "unkdir", "unkrole", "optwarn", "quotepara", "firstline", "firstline2", "epigraph"]
+LEAVES_Q = ["para", "para2", "head", "code", "tgt", "list", "tightlist", "unkdir", "unkrole", "optwarn", "quotepara", "firstline", "firstline2", "epigraph", "epigraph-blank"]
 
 
 def parse_dir(kind):
@@ -95,8 +98,13 @@ def wrap(gen, kind, inner, depth, files):
         return [f] + lines + [f], [(m, i + 1, k, *r) if not (r and r[0]) else (m, i, k, r[0]) for m, i, k, *r in marks]
     if kind.startswith("inc"):
         # include of a generated file; optionally with :start-line:
-        skip = 2 if kind == "inc-start" else 3 if kind == "inc-after" else 0
+        skip = 2 if kind == "inc-start" else 3 if kind == "inc-after" else 5 if kind == "inc-start-after" else 0
         name = f"inc{len(files)}.md"
+        if kind == "inc-start-after":
+            # both options: two lines dropped by :start-line:, three more up to the marker
+            files[name] = "\n".join(["dropped A", "dropped B", "skipped line one", "", "a longer skipped line with the STARTMARK"] + lines) + "\n"
+            out = ["```{include} " + name, ":start-line: 2", ":start-after: STARTMARK", "```"]
+            return out, [(m, i + skip, k, (r[0] if r and r[0] else name)) if not (r and r[0]) else (m, i, k, r[0]) for m, i, k, *r in marks]
         if kind == "inc-after":
             # :start-after: a marker that ends line 3 of the file (the rest of that line and line 3's break are skipped text)
             files[name] = "\n".join(["skipped line one", "", "a longer skipped line with the STARTMARK"] + lines) + "\n"
@@ -121,7 +129,7 @@ def wrap(gen, kind, inner, depth, files):
 
 DIRS_FULL = [f"dir|{f}|{o}|{ba}|{bb}|{n}" for f in "`:" for o in ("none", "one", "two", "yaml", "yamlblank") for ba in "012" for bb in "01" for n in ("note", "admonition")]
 DIRS_SMALL = [f"dir|{f}|{o}|{ba}|{bb}|note" for f in "`:" for o in ("none", "one", "yaml") for ba, bb in (("0", "0"), ("1", "1"), ("2", "0"))]
-BASIC = ["quote", "bullet", "ordered", "div", "inc", "inc-start", "inc-after"]
+BASIC = ["quote", "bullet", "ordered", "div", "inc", "inc-start", "inc-after", "inc-start-after"]
 
 
 def features(ws, leafkind):
